@@ -36,8 +36,31 @@ def step (line : String) : String :=
         | "screamingsnake" => "ok " ++ toHexW (toScreamingSnake s)
         | _ => "bad-op"
       | none => "bad-op"
-    | "evolve", _ => "skip"
-    | "det", _ => "skip"
+    | "evolve", b :: p :: e :: _ =>
+      match dBundle b, dStr p, dEdits e with
+      | some b, some p, some es =>
+        match evolve b p es with
+        | none => "bad-op"
+        | some (.ok (k, fs)) =>
+          let s := skelStr fs
+          s!"ok changed={k}" ++ (if s.isEmpty then "" else " " ++ s)
+        | some (.err _) => "err"
+        | some (.panic _) => "panic"
+      | _, _, _ => "bad-op"
+    | "det", b :: v :: _ =>
+      match dBundle b with
+      | some b =>
+        if b.pkgs.isEmpty then "bad-op" else
+        match dVariant b v with
+        | some v =>
+          let parts := (detRun b v.pkgs v.files v.calls v.reuse).map fun (_, r) =>
+            match r with
+            | .ok fs => skelStr fs
+            | .err _ => "err"
+            | .panic _ => "panic"
+          "ok " ++ " ; ".intercalate parts
+        | none => "bad-op"
+      | none => "bad-op"
     | _, _ => "bad-op"
 
 partial def loop (h : IO.FS.Stream) (out : IO.FS.Stream) : IO Unit := do
